@@ -81,6 +81,9 @@ class StreamItemQueue:
         self._failed = False
         self._finished = False
         self._stopped = False
+        # clean-ups in progress: a concurrent abort must wait for them as well
+        self._cleanups = 0
+        self._cleaned_up = Event()
         if eager:
             try:
                 get_running_loop()
@@ -106,12 +109,16 @@ class StreamItemQueue:
             # before delivering the failure
             self._aborted = True
             self._failed = True
-            await self._settle_pending()
-            on_abort = self._on_abort
-            if on_abort is not None:
-                cleanup = on_abort(error)
-                if is_awaitable(cleanup):
-                    await cleanup
+            self._begin_cleanup()
+            try:
+                await self._settle_pending()
+                on_abort = self._on_abort
+                if on_abort is not None:
+                    cleanup = on_abort(error)
+                    if is_awaitable(cleanup):
+                        await cleanup
+            finally:
+                self._end_cleanup()
             self._producer_parked = True  # may park on the full queue
             await entries.put(_ErrorEntry(error))
         else:
@@ -161,7 +168,8 @@ class StreamItemQueue:
                 try:
                     entry = future.result()
                 except Exception:
-                    await self._cleanup()
+                    self._begin_cleanup()
+                    await self._finish_cleanup(self._cleanup())
                     raise
             if entry is _END:
                 self._stopped = True
@@ -213,9 +221,12 @@ class StreamItemQueue:
             producer_task.cancel()  # type: ignore[union-attr]
             self._producer_cancelled = True
         if self._aborted:
-            # Aborted (or failed) before, so the cleanup has already run; only
-            # release a producer that was still parked.
-            return self._settle_parked() if parked else None
+            # Aborted (or failed) before, so the cleanup has already run or is
+            # still running; only release a producer that was still parked, and
+            # wait for a cleanup that is still in progress.
+            if parked:
+                return self._settle_parked()
+            return self._await_cleanups() if self._cleanups else None
         self._aborted = True
         if self._finished:
             # The source finished normally, so it must not be cleaned up; only
@@ -237,9 +248,34 @@ class StreamItemQueue:
             if on_abort is not None:
                 cleanup = on_abort(reason)
                 if is_awaitable(cleanup):
-                    return cleanup
+                    self._begin_cleanup()
+                    return self._finish_cleanup(cleanup)
             return None
-        return self._cleanup(reason)
+        self._begin_cleanup()
+        return self._finish_cleanup(self._cleanup(reason))
+
+    def _begin_cleanup(self) -> None:
+        """Note that a cleanup has been started."""
+        self._cleanups += 1
+        self._cleaned_up.clear()
+
+    def _end_cleanup(self) -> None:
+        """Note that a cleanup has finished."""
+        self._cleanups -= 1
+        if not self._cleanups:
+            self._cleaned_up.set()
+
+    async def _finish_cleanup(self, cleanup: Awaitable[None]) -> None:
+        """Await a cleanup that has been noted with _begin_cleanup()."""
+        try:
+            await cleanup
+        finally:
+            self._end_cleanup()
+
+    async def _await_cleanups(self) -> None:
+        """Wait until the cleanups that are in progress have finished."""
+        await self._cleaned_up.wait()
+        await self._settle_pending()
 
     async def _settle_parked(self) -> None:
         """Await the cancelled parked producer and settle pending item futures."""
